@@ -343,8 +343,19 @@ def run(ctx):
     lp = [n for n in scfg.nodes if any(call_name(c) == "stop" and call_recv(c) == "self._sendLooper" for c in n.calls())]
     r.check(bool(lp), "%s#looper-stopped" % stop.qname, "stop() does not stop the periodic timer", where(stop, stop.node))
 
+    # ---- R6 the thresholds compared by the dispatch test are the configured ones
+    r = ctx.rule("R6", "count / byte thresholds and the period hold what the constructor was given (0 / None = off), or the fixed unbatched values", 3, "A")
+    pci = prog.cls(PROD)
+    for attr in ("batch_every_n", "batch_every_b", "batch_every_t"):
+        probs = given_value_problems(ctx, pci, attr, param=attr)
+        r.check(not probs, "%s#as-configured(%s)" % (PROD, attr), "%s is not what the constructor was given: %s" % (attr, "; ".join(p_[0] for p_ in probs)),
+                where(probs[0][1], probs[0][2]) if probs and probs[0][1] is not None else "",
+                "a threshold the caller disabled with 0 is replaced by a default: batches are dispatched when no configured trigger fired")
 
 MUTANTS = [
+    {"id": "threshold-default-for-falsy", "file": "producer.py", "old": "            if not isinstance(batch_every_n, Integral):\n",
+     "new": "            batch_every_n = batch_every_n or BATCH_SEND_MSG_COUNT\n            if not isinstance(batch_every_n, Integral):\n",
+     "expect": "C19.R6", "note": "seeded C19-14"},
     {"id": "retry-scheduled-while-stopping", "file": "producer.py", "old": "            if self.stopping or self._req_attempts >= self._max_attempts:",
      "new": "            if self._req_attempts >= self._max_attempts:", "expect": "C19.R4", "note": "finding F18"},
     {"id": "enqueue-after-stop", "file": "producer.py",
